@@ -27,6 +27,12 @@ type receiveHandler struct {
 	// Closed once all loops are finished
 	closedCh chan struct{}
 
+	// Notifications carry no sequence number of their own (SeqNo()
+	// is -1 for all of them), so each one is filed with the task
+	// loop under its own negative key. Only touched by the receive
+	// goroutine.
+	lastNotifyKey SeqNumber
+
 	// Task loop channels
 	taskBeginCh  chan *task
 	taskCancelCh chan SeqNumber
@@ -132,8 +138,13 @@ func (r *receiveHandler) handleReceiveDispatch(req request) error {
 		req.LogInvocation(se)
 		return req.Reply(r.writer, nil, wrapError(wrapErrorFunc, se))
 	}
+	taskKey := req.SeqNo()
+	if req.Type() == MethodNotify {
+		r.lastNotifyKey--
+		taskKey = r.lastNotifyKey
+	}
 	select {
-	case r.taskBeginCh <- &task{req.SeqNo(), req.CancelFunc()}:
+	case r.taskBeginCh <- &task{taskKey, req.CancelFunc()}:
 	case <-r.stopCh:
 		// The task loop is gone, so nobody could cancel this request
 		// any more: cancel it here and do not serve it.
@@ -143,7 +154,7 @@ func (r *receiveHandler) handleReceiveDispatch(req request) error {
 	go func() {
 		req.Serve(r.writer, serveHandler, wrapErrorFunc)
 		select {
-		case r.taskEndCh <- req.SeqNo():
+		case r.taskEndCh <- taskKey:
 		case <-r.stopCh:
 		}
 	}()
